@@ -58,7 +58,7 @@ def bodies : List (String × String) := [
   ("calc_posts::operator()", "post_t::xdata_t& xdata(post.xdata()); if (last_post) { assert(last_post->has_xdata()); if (calc_running_total) xdata.total = last_post->xdata().total; xdata.count = last_post->xdata().count + 1; } else { xdata.count = 1; } post.add_to_value(xdata.visited_value, amount_expr); xdata.add_flags(POST_EXT_VISITED); account_t * acct = post.reported_account(); acct->xdata().add_flags(ACCOUNT_EXT_VISITED); if (calc_running_total) add_or_set_value(xdata.total, xdata.visited_value); item_handler<post_t>::operator()(post); last_post = &post;"),
   ("compare_items<post_t>::operator()", "assert(left); assert(right); post_t::xdata_t& lxdata(left->xdata()); if (! lxdata.has_flags(POST_EXT_SORT_CALC)) { if (sort_order.get_context()) { bind_scope_t bound_scope(*sort_order.get_context(), *left); find_sort_values(lxdata.sort_values, bound_scope); } else { find_sort_values(lxdata.sort_values, *left); } lxdata.add_flags(POST_EXT_SORT_CALC); } post_t::xdata_t& rxdata(right->xdata()); if (! rxdata.has_flags(POST_EXT_SORT_CALC)) { if (sort_order.get_context()) { bind_scope_t bound_scope(*sort_order.get_context(), *right); find_sort_values(rxdata.sort_values, bound_scope); } else { find_sort_values(rxdata.sort_values, *right); } rxdata.add_flags(POST_EXT_SORT_CALC); } return sort_value_is_less_than(lxdata.sort_values, rxdata.sort_values);"),
   ("compare_items<post_t>::find_sort_values", "bind_scope_t bound_scope(report, scope); push_sort_value(sort_values, sort_order.get_op(), bound_scope);"),
-  ("push_sort_value", "if (node->kind == expr_t::op_t::O_CONS) { while (node && node->kind == expr_t::op_t::O_CONS) { push_sort_value(sort_values, node->left(), scope); node = node->has_right() ? node->right() : NULL; } } else { bool inverted = false; if (node->kind == expr_t::op_t::O_NEG) { inverted = true; node = node->left(); } sort_values.push_back(sort_value_t()); sort_values.back().inverted = inverted; sort_values.back().value = expr_t(node).calc(scope).simplified(); if (sort_values.back().value.is_null()) throw_(calc_error, _(\"Could not determine sorting value based an expression\")); }"),
+  ("push_sort_value", "if (! node) throw_(calc_error, _(\"Could not determine sorting value based an expression\")); if (node->kind == expr_t::op_t::O_CONS) { while (node && node->kind == expr_t::op_t::O_CONS) { push_sort_value(sort_values, node->left(), scope); node = node->has_right() ? node->right() : NULL; } } else { bool inverted = false; if (node->kind == expr_t::op_t::O_NEG) { inverted = true; node = node->left(); } sort_values.push_back(sort_value_t()); sort_values.back().inverted = inverted; sort_values.back().value = expr_t(node).calc(scope).simplified(); if (sort_values.back().value.is_null()) throw_(calc_error, _(\"Could not determine sorting value based an expression\")); }"),
   ("sort_value_is_less_than", "std::list<sort_value_t>::const_iterator left_iter = left_values.begin(); std::list<sort_value_t>::const_iterator right_iter = right_values.begin(); while (left_iter != left_values.end() && right_iter != right_values.end()) { if (! (*left_iter).value.is_balance() && ! (*right_iter).value.is_balance()) { if ((*left_iter).value < (*right_iter).value) { return ! (*left_iter).inverted; } else if ((*left_iter).value > (*right_iter).value) { return (*left_iter).inverted; } } left_iter++; right_iter++; } assert(left_iter == left_values.end()); assert(right_iter == right_values.end()); return false;"),
   ("value_t::in_place_simplify", "if (is_realzero()) { set_long(0L); return; } if (is_balance() && as_balance().single_amount()) { in_place_cast(AMOUNT); } #if REDUCE_TO_INTEGER if (is_amount() && ! as_amount().has_commodity() && as_amount().fits_in_long()) { in_place_cast(INTEGER); } #endif"),
   ("post_t::add_to_value", "if (xdata_ && xdata_->has_flags(POST_EXT_COMPOUND)) { if (! xdata_->compound_value.is_null()) add_or_set_value(value, xdata_->compound_value); } else if (expr) { scope_t *ctx = expr->get_context(); bind_scope_t bound_scope(*ctx, const_cast<post_t&>(*this)); #if 1 value_t temp(expr->calc(bound_scope)); add_or_set_value(value, temp); expr->set_context(ctx); #else if (! xdata_) xdata_ = xdata_t(); xdata_->value = expr->calc(bound_scope); xdata_->add_flags(POST_EXT_COMPOUND); add_or_set_value(value, xdata_->value); #endif } else if (xdata_ && xdata_->has_flags(POST_EXT_VISITED) && ! xdata_->visited_value.is_null()) { add_or_set_value(value, xdata_->visited_value); } else { add_or_set_value(value, amount); }"),
